@@ -2,6 +2,7 @@ package node
 
 import (
 	"context"
+	"errors"
 	"time"
 
 	"tunnox-core/internal/core/storage/hybrid"
@@ -14,7 +15,7 @@ func Harness_C15_nodeid() {
 	ctx := context.Background()
 	now := int64(1) << 60
 	verif_ClockSet(now)
-	shared := memory.New(ctx)
+	shared := &c15Flaky{Storage: memory.New(ctx)}
 	ha := hybrid.NewWithSharedCache(ctx, memory.New(ctx), shared, nil, hybrid.DefaultConfig())
 	hb := hybrid.NewWithSharedCache(ctx, memory.New(ctx), shared, nil, hybrid.DefaultConfig())
 	a, b := NewNodeIDAllocator(ha), NewNodeIDAllocator(hb)
@@ -33,8 +34,29 @@ func Harness_C15_nodeid() {
 		verif_ClockSet(now)
 		verif_Quiesce() // the heartbeat goroutine handles its tick
 	}
+	// the shared cache may be unreachable for the atomic claim while the second node starts
+	shared.failSetNX = verif_Bool()
 	idB, errB := b.AllocateNodeID(ctx)
+	shared.failSetNX = false
+	if errB != nil {
+		verif_Cover("C15.node.clean_failure")
+	}
 	verif_Known("C15-nodeid-renewal-wrong-tier", rounds >= 3)
 	verif_Assert("C15.node.distinct", errB != nil || idB != idA)
 	verif_Cover("C15.node.done")
 }
+
+// c15Flaky is the shared cache with an outage switch for its atomic set-if-absent
+type c15Flaky struct {
+	*memory.Storage
+	failSetNX bool
+}
+
+func (f *c15Flaky) SetNX(key string, v interface{}, ttl time.Duration) (bool, error) {
+	if f.failSetNX {
+		return false, errC15Down
+	}
+	return f.Storage.SetNX(key, v, ttl)
+}
+
+var errC15Down = errors.New("shared cache unreachable")
